@@ -378,6 +378,16 @@ func (w *World) oracleC03(m *simkube.Mutation, ip string, oldF, newF *FipInfo, p
 			w.fail("C03.rekeyed-between-pods", "rekeyed-between-pods", "FloatingIP %s moved from pod key %q to pod key %q by %s", ip, oldF.Key, newF.Key, m.By.Name)
 			return
 		}
+		if id.App.Kind != "dp" {
+			// only a deployment's (or a deployment pool's) reservation is kept under the shared prefix; for every other
+			// workload kind the reservation is the identity's own key, and moving it to a prefix takes it away from it
+			if ok, _ := w.reservedByPolicy(id); ok && !w.M.adminRel[ip+"|"+oldF.Key] {
+				w.fail("C03.reservation-moved-to-shared-prefix", "reservation-moved-to-shared-prefix",
+					"FloatingIP %s of %s identity %q (policy %s) re-keyed to %q by %s: the identity's reserved IP is now anybody's in that prefix",
+					ip, id.App.Kind, oldF.Key, id.App.effPolicy(), newF.Key, m.By.Name)
+				return
+			}
+		}
 		if !prev.PodGoneSince && !w.M.adminRel[ip+"|"+oldF.Key] {
 			w.fail("C03.reserved-while-pod-lives", "reserved-while-pod-lives",
 				"FloatingIP %s taken from pod key %q (pod neither deleted nor finished since step %d) to %q by %s", ip, oldF.Key, prev.Step, newF.Key, m.By.Name)
@@ -395,7 +405,18 @@ func policyTag(w *World, key string) string {
 // noteLostReservation (C02): an identity with a reserving policy loses its IP although the documented policy says the
 // reservation still exists. The verdict is given when the identity is bound again with a different IP.
 func (w *World) noteLostReservation(m *simkube.Mutation, ip string, oldF, newF *FipInfo, prev *Alloc) {
-	if !w.armed("C02") || prev == nil || oldF == nil || newF != nil || !isPodKey(oldF.Key) {
+	if !w.armed("C02") || prev == nil || oldF == nil || !isPodKey(oldF.Key) {
+		return
+	}
+	if newF != nil {
+		// re-keyed: for everything but deployments the reservation is the identity's own key, so a move to a shared
+		// prefix is a loss of the reservation as well
+		if id := w.M.idents[oldF.Key]; id != nil && id.App.Kind != "dp" && newF.Key != oldF.Key && !isPodKey(newF.Key) && !w.identityEverHadRanges(oldF.Key) {
+			if ok, _ := w.reservedByPolicy(id); ok && !w.M.adminRel[ip+"|"+oldF.Key] {
+				w.M.lostReservation[oldF.Key] = fmt.Sprintf("%s (re-keyed to %q at step %d by %s)", ip, newF.Key, w.S.Steps, m.By.Name)
+				w.M.lostReservationIP[oldF.Key] = ip
+			}
+		}
 		return
 	}
 	id := w.M.idents[oldF.Key]
